@@ -973,6 +973,7 @@ fn run_case(lines: Vec<String>, hints: Arc<Mutex<Vec<String>>>, resp: Arc<Mutex<
                         match mon.group_last.get(&g).copied() {
                             Some((lsq, laid)) if sq < lsq => {
                                 mon.hit("C07", format!("`{l}`: at time {seen} model {model} processed action {laid} before action {aid}, although both come from the same origin and action {aid} was scheduled first"));
+                                mon.hit("C02", format!("`{l}`: at time {seen} model {model} processed event {laid} before event {aid}, although one origin ({}) issued {aid} before {laid} for that model and time: delivery order is not consistent with the order in which they were sent", if origin == 0 { "the scheduler handle of the bench".to_string() } else { format!("model {}", origin - 1) }));
                             }
                             Some((lsq, _)) if sq <= lsq => {}
                             _ => {
@@ -1012,6 +1013,29 @@ fn run_case(lines: Vec<String>, hints: Arc<Mutex<Vec<String>>>, resp: Arc<Mutex<
     }
     // C10: driver periodic series fire exactly at t0 + k*p up to the horizon / cancellation
     let horizon = mon.last_now;
+    // C03: an accepted one-shot event of the driver whose deadline has been reached and whose key (if any) was never
+    // cancelled has been delivered to its model exactly once
+    if fatal_at.is_none() && !mon.hits.iter().any(|h| h.0 == "C03") {
+        let mut lost: Vec<(u64, u64, usize)> = Vec::new();
+        for (aid, (d, key)) in mon.oneshots.iter() {
+            if *d > horizon {
+                continue;
+            }
+            let cancelled = key.map(|k| mon.cancelled_at.contains_key(&k)).unwrap_or(false)
+                || mon.objs.values().any(|v| v.iter().any(|o| o.0 == *aid && o.1.is_some()));
+            if cancelled {
+                continue;
+            }
+            let n = mon.fires.iter().filter(|f| f.0 == *aid).count();
+            if n != 1 {
+                lost.push((*aid, *d, n));
+            }
+        }
+        lost.sort();
+        if let Some((aid, d, n)) = lost.first() {
+            mon.hit("C03", format!("event {aid}, accepted with deadline {d} and never cancelled, was delivered {n} time(s) although the simulation has reached time {horizon}: a scheduled event is delivered exactly once"));
+        }
+    }
     for (aid, (t0p, p, key, _m)) in mon.series.clone() {
         let got: Vec<u64> = mon.fires.iter().filter(|f| f.0 == aid).map(|f| f.2).collect();
         let limit = match key.and_then(|k| mon.cancelled_at.get(&k).copied()) {
